@@ -11,7 +11,7 @@ from vlib.runner import Hyp, Violation, exc_bucket
 ID = "C12"
 LEVEL = "exploration"
 RULE = (
-    "Hypothesis lists of length 0-8 drawn (with duplicates and permutations) from a per-list pool of entries: 2- and 3-element "
+    "Hypothesis lists of length 0-8 (one in 25: 33-300 entries) drawn (with duplicates and permutations) from a per-list pool of entries: 2- and 3-element "
     "entries over every colour spelling, ~60% needing a fix (pairs constructed below a threshold), plus invalid entries whose text "
     "or background is G-junk; x mode x very_readable. Oracle per entry: same colour as a fresh ColorPair(...).make_readable, "
     "status = O-WCAG label of (O-CSS(result), background) at that text size; invalid entries returned unchanged and never "
@@ -58,6 +58,7 @@ def judge(case):
     if not isinstance(out, list) or len(out) != len(entries):
         raise Violation("bulk-length", f"{len(entries)} entries in, {out!r} out")
     n_invalid = n_fixed = 0
+    singles = {}
     for i, ent in enumerate(entries):
         t, b, large = ent[0], ent[1], larges[i]
         pair = ColorPair(t, b, large)
@@ -71,7 +72,11 @@ def judge(case):
             if res[1] in ("readable", "very readable"):
                 raise Violation("invalid-entry-claims-readability", f"entry {i} {ent!r} is unparseable but status is {res[1]!r}")
             continue
-        single = ColorPair(t, b, large).make_readable(mode=mode, very_readable=very)
+        key = (repr(t), repr(b), large)
+        if len(entries) > 16 and key in singles:
+            single = singles[key]  # long lists repeat a few distinct entries: the single-pair result is computed once per distinct entry
+        else:
+            single = singles[key] = ColorPair(t, b, large).make_readable(mode=mode, very_readable=very)
         if res[0] != single[0] or type(res[0]) is not type(single[0]):
             raise Violation("bulk-colour-differs-from-single", f"entry {i} {ent!r} (mode={mode}, very_readable={very}): bulk gives {res[0]!r}, ColorPair.make_readable gives {single[0]!r}")
         bg, same = optim.judged_bg(pair, b)
@@ -101,7 +106,7 @@ def judge(case):
     nt = None
     if (n_invalid >= 1 and n_fixed >= 1) or len(arities) == 2 or case.get("band"):
         nt = str(case["entries"]) + str((mode, very))
-    return {"nt": nt, "cls": [f"len:{len(entries)}", f"invalid:{min(n_invalid, 3)}", f"fixed:{min(n_fixed, 3)}", "mixed-arity" if len(arities) == 2 else "one-arity"],
+    return {"nt": nt, "cls": [(f"len:{len(entries)}" if len(entries) <= 8 else "len:long(33-300)"), f"invalid:{min(n_invalid, 3)}", f"fixed:{min(n_fixed, 3)}", "mixed-arity" if len(arities) == 2 else "one-arity"],
             "sample": {"entries": case["entries"], "mode": mode, "very": very, "out": [[r[0] if isinstance(r[0], (str, type(None))) else str(r[0]), r[1]] for r in out]}}
 
 
@@ -147,6 +152,10 @@ def strategy(draw):
             b2, _, _ = draw(gc.spell(tuple(src["brgb"]), kinds=["hex6", "rgb", "tuple", "HEX6"], allow_translucent=False))
             pool.append({"t": t2, "b": b2, "large": src.get("large")})
     n = draw(st.sampled_from([0, 1, 2, 2, 3, 3, 4, 5, 6, 8]))
+    if draw(st.integers(0, 24)) == 0:
+        # long lists (a site-wide palette audit): order and one-result-per-entry must hold at any length - batching, paging
+        # or a worker pool that only engages beyond some size would break them
+        n = draw(st.sampled_from([33, 48, 64, 101, 210, 300]))
     idx = draw(st.lists(st.integers(0, len(pool) - 1), min_size=n, max_size=n))
     entries = [pool[i] for i in idx]
     case = {"entries": entries, "mode": draw(st.sampled_from([0, 1, 1, 2])), "very": draw(st.booleans())}
